@@ -40,7 +40,10 @@ RULE = ("one call of sound_event_detection per case and exact unit: an anchor cl
         "has both annotated and predicted events")
 TRUSTED_BASE = ["checks/c08.py (build recording / clips / sound events / tags, call sound_event_detection, map the uuids in "
                 "the result back to list positions, encode doubles)"]
-ASSUMPTIONS = ["every generated run contains an anchor clip with one labelled annotation and the vocabulary has >= 2 tags: "
+ASSUMPTIONS = ["'extra' universe: regions with an interior ring (MultiPolygon and Polygon) against boxes strictly inside / touching / "
+               "across the hole (a geometry strictly inside a hole does not overlap the region), and vocabularies / annotation tags / "
+               "predicted tags over different terms that share a label or a name with equal values (a tag is a (term, value) pair)",
+               "every generated run contains an anchor clip with one labelled annotation and the vocabulary has >= 2 tags: "
                "otherwise the run-level metrics of the same call (mean average precision, top-3 accuracy) raise inside "
                "scikit-learn -- that is C09's subject (DESIGN section 4 C09), not a clause of C08",
                "an annotation's class is its single tag when that tag is in the vocabulary; annotations with several tags are "
